@@ -191,6 +191,22 @@ def table():
         list_of_tasks=[T("a")], nb_tasks_to_schedule=1, list_of_time_intervals=[(0, 3), (5, 8)], kind="max")),
         "single_element")
 
+    # --- an interruption that does not fit into its period (the lengthening of the task is defined within one period):
+    #     rejected wherever the offending interval stands in the list; the exact boundary is accepted
+    def periodic_interrupt(intervals, period, n_tasks=1):
+        P()
+        w = ps.Worker(name="w")
+        for i in range(n_tasks):
+            T(f"t{i}").add_required_resource(w)
+        ps.ResourcePeriodicallyInterrupted(resource=w, list_of_time_intervals=intervals, period=period)
+    for nm, ivs, per, verdict in (("only", [(4, 7)], 5, REJECT), ("last", [(0, 1), (4, 7)], 5, REJECT),
+                                  ("first", [(4, 7), (0, 1)], 5, REJECT), ("middle", [(0, 1), (4, 7), (2, 3)], 5, REJECT),
+                                  ("boundary", [(0, 1), (3, 5)], 5, ACCEPT), ("boundary_first", [(3, 5), (0, 1)], 5, ACCEPT),
+                                  ("inside", [(1, 2), (3, 4)], 5, ACCEPT)):
+        for nt in (1, 2):
+            row(f"ResourcePeriodicallyInterrupted.beyond_period.{nm}.tasks{nt}", verdict,
+                lambda ivs=ivs, per=per, nt=nt: periodic_interrupt(ivs, per, nt), "interval_vs_period")
+
     def repeated_interval():
         P()
         w = ps.Worker(name="w")
